@@ -7,6 +7,8 @@ import BHS.Model.Query
 import BHS.Model.Interleave
 import BHS.Model.RepoM
 import BHS.Gen.ChainSvc
+import BHS.Model.QueryM
+import BHS.Gen.HeaderSvc
 
 namespace Driver.Ops.Chain
 open BHS BHS.Chain BHS.Header
@@ -100,8 +102,111 @@ def genMismatch (cfg : Cfg String) (s : Store String) (x : Src String) (fail : O
     else if gs != s' then some s!"err:gen-mismatch store generated={";".intercalate (gs.map rowStr)}"
     else none
 
+/-! ### the REGENERATED query side (BHS/Gen/HeaderSvc.lean, translated from service/header_service.go and the repository
+and SQL layers below it on every run), evaluated next to the hand model on every read op: `none` = they agree (as
+Props/HeaderSvcGen.lean proves), otherwise the text of the difference. The zero hash of the protocol is `zeroHash`. -/
+section GenQuery
+open BHS.QueryM (runQ)
+open BHS.Gen.HeaderSvc
+
+/-- the loop budget: above every stored height (the hypothesis of the refinement theorems) -/
+def qFuel (s : Store String) : Nat := s.foldl (fun m r => max m r.height) 0 + 1
+
+local instance zeroHashDefault : Inhabited String := ⟨zeroHash⟩
+
+/-- one protocol line: no line breaks, bounded length -/
+def oneLine (t : String) : String :=
+  let u := String.ofList (t.toList.map fun c => if c == '\n' then ' ' else c)
+  if u.length > 600 then (u.take 600).toString ++ "…" else u
+
+def genDiff {α : Type} [Repr α] (what : String) (r : Except QueryM.Fault α) (ok : α → Bool) : Option String :=
+  match r with
+  | .error f => some s!"err:gen-mismatch {what}: the generated code faults: {repr f}"
+  | .ok a => if ok a then none else some s!"err:gen-mismatch {what}: generated={oneLine (toString (repr a))}"
+
+def errName (e : Option QueryM.Err) : String := ((e.bind QueryM.Err.bhsName).getD (match e with
+  | some (.msg t) => t | _ => "-"))
+
+def genLocatorDiff (s : Store String) : Option String :=
+  genDiff "locator" (runQ s (qFuel s) HeaderService_LatestHeaderLocator) (· == locator s)
+
+def genGetHeadersDiff (s : Store String) (loc : List String) (stop : String) : Option String :=
+  genDiff "getheaders" (runQ s (qFuel s) (HeaderService_LocateHeadersGetHeaders loc stop)) fun res =>
+    match getHeaders s zeroHash loc stop with
+    | .ok rows => res.2.isNone && res.1 == rows.map (fun r => some (srcOf r))
+    | .error .noLocators => errName res.2 == "no locators provided"
+    | .error .stopLower => errName res.2 == "hashStop is lower than first valid height"
+
+def genByHeightDiff (s : Store String) (lo cnt : Int) : Option String :=
+  genDiff "byheight" (runQ s (qFuel s) (HeaderService_GetHeadersByHeight lo cnt)) fun res =>
+    res.2.isNone && res.1 == (byHeightRange s lo (lo + cnt - 1)).map some
+
+def genTipsDiff (s : Store String) : Option String :=
+  genDiff "tips" (runQ s (qFuel s) HeaderService_GetTips) fun res => res.2.isNone && res.1 == (allTips s).map some
+
+def genTipDiff (s : Store String) : Option String :=
+  genDiff "tip" (runQ s (qFuel s) HeaderService_GetTip) (· == getTip s)
+
+def genStateDiff (s : Store String) (h : String) : Option String :=
+  genDiff "state" (runQ s (qFuel s) (HeaderService_GetHeaderByHash h)) fun res =>
+    match byHash s h with
+    | some r => res.2.isNone && res.1 == some r
+    | none => res.1.isNone && errName res.2 == "ErrHeaderNotFound"
+
+def genAncestorsDiff (s : Store String) (h a : String) : Option String :=
+  genDiff "ancestors" (runQ s (qFuel s) (HeaderService_GetHeaderAncestorsByHash h a)) fun res =>
+    match ancestors s h a with
+    | .ok rows => res.2.isNone && res.1 == rows.map some
+    | .error .notFound => errName res.2 == "ErrHeaderWithGivenHashes"
+    | .error .ancestorHigher => errName res.2 == "ErrAncestorHashHigher"
+    | .error .notSameChain => errName res.2 == "ErrHeadersNotPartOfTheSameChain"
+
+def genCommonDiff (s : Store String) (hs : List String) : Option String :=
+  genDiff "common" (runQ s (qFuel s) (HeaderService_GetCommonAncestor hs)) fun res =>
+    match commonAncestor s hs with
+    | .found r => res.2.isNone && res.1 == some r
+    | .notFound => res.1.isNone && (errName res.2 == "ErrAncestorNotFound" || errName res.2 == "ErrHeaderNotFound")
+    | .nilResult => res.1.isNone && (errName res.2 == "ErrAncestorNotFound" || errName res.2 == "ErrHeaderNotFound")
+    | .panicEmpty => res.1.isNone && errName res.2 == "ErrCommonAncestorEmptyList"
+
+/-- the hand model's answer, unless the generated code disagrees -/
+def genCheck (d : Option String) (out : String) : String :=
+  match d with
+  | some x => x
+  | none => out
+
+end GenQuery
+
+def parseSt : String → Option St
+  | "LONGEST_CHAIN" => some .lc
+  | "STALE" => some .stale
+  | "ORPHAN" => some .orphan
+  | _ => none
+
+/-- one row in the `dump` format -/
+def parseRow (w : String) : Option (Row String) :=
+  match w.splitOn "," with
+  | [id, hash, prev, merkle, height, version, time, bits, nonce, work, cum, st] => do
+    let id ← id.toNat?
+    let height ← height.toNat?
+    let version ← version.toInt?
+    let time ← time.toNat?
+    let bits ← bits.toNat?
+    let nonce ← nonce.toNat?
+    let work ← work.toNat?
+    let cum ← cum.toNat?
+    let st ← parseSt st
+    pure { id, hash, prev, merkle, height, version, time, bits, nonce, work, cum, st }
+  | _ => none
+
 def handle (st : S) : List String → Option (S × String)
   | ["reset"] => some ({ st with store := [genesisRow] }, "ok")
+  -- the table of the implementation, as dumped: the runners of the READ properties (C02, C04, C08, C13) put the model on
+  -- exactly the table the queries run on, so that they judge the queries and not how the table came about (C01)
+  | ["load", rows] =>
+    match (rows.splitOn ";").mapM parseRow with
+    | some rs => some ({ st with store := rs }, "ok")
+    | none => some (st, "bad-rows")
   | "forbid" :: hs => some ({ st with forbidden := hs }, "ok")
   | ["add", hex] =>
     match parseHeader hex with
@@ -127,8 +232,9 @@ def handle (st : S) : List String → Option (S × String)
     match parseHeader hex with
     | none => some (st, "bad-header")
     | some x => some (st, blockHash x)
-  | ["tip"] => some (st, match getTip st.store with | some r => rowStr r | none => "none")
-  | ["state", h] => some (st, match byHash st.store h with | some r => rowStr r | none => "not-found")
+  | ["tip"] => some (st, genCheck (genTipDiff st.store) (match getTip st.store with | some r => rowStr r | none => "none"))
+  | ["state", h] => some (st, genCheck (genStateDiff st.store h)
+      (match byHash st.store h with | some r => rowStr r | none => "not-found"))
   | ["dump"] => some (st, ";".intercalate (st.store.map rowStr))
   | ["inv"] =>
     let c := cfgOf st
@@ -152,31 +258,32 @@ def handle (st : S) : List String → Option (S × String)
       | .error .notLc => some (st, "err:conflict")
       | .error .noTip => some (st, "err:notip")
       | .ok (rows, last) => some (st, ",".intercalate (rows.map fun r => s!"{r.merkle}:{r.height}") ++ "|" ++ last.getD "-")
-  | ["locator"] => some (st, ",".intercalate (locator st.store))
+  | ["locator"] => some (st, genCheck (genLocatorDiff st.store) (",".intercalate (locator st.store)))
   | "getheaders" :: stop :: loc =>
     match getHeaders st.store zeroHash loc stop with
-    | .error .noLocators => some (st, "err:nolocators")
-    | .error .stopLower => some (st, "err:stoplower")
-    | .ok rows => some (st, hashesStr rows)
+    | .error .noLocators => some (st, genCheck (genGetHeadersDiff st.store loc stop) "err:nolocators")
+    | .error .stopLower => some (st, genCheck (genGetHeadersDiff st.store loc stop) "err:stoplower")
+    | .ok rows => some (st, genCheck (genGetHeadersDiff st.store loc stop) (hashesStr rows))
   | ["byheight", lo, cnt] =>
     match lo.toInt?, cnt.toInt? with
-    | some lo, some cnt => some (st, ",".intercalate (sortStrs ((byHeightRange st.store lo (lo + cnt - 1)).map (·.hash))))
+    | some lo, some cnt => some (st, genCheck (genByHeightDiff st.store lo cnt)
+        (",".intercalate (sortStrs ((byHeightRange st.store lo (lo + cnt - 1)).map (·.hash)))))
     | _, _ => some (st, "bad-args")
-  | ["tips"] => some (st, ",".intercalate (sortStrs ((allTips st.store).map (·.hash))))
+  | ["tips"] => some (st, genCheck (genTipsDiff st.store) (",".intercalate (sortStrs ((allTips st.store).map (·.hash)))))
   | ["ancestors", h, a] =>
     match ancestors st.store h a with
-    | .error .notFound => some (st, "err:notfound")
-    | .error .ancestorHigher => some (st, "err:ancestorhigher")
-    | .error .notSameChain => some (st, "err:notsamechain")
-    | .ok rows => some (st, "ok:" ++ hashesStr rows)
+    | .error .notFound => some (st, genCheck (genAncestorsDiff st.store h a) "err:notfound")
+    | .error .ancestorHigher => some (st, genCheck (genAncestorsDiff st.store h a) "err:ancestorhigher")
+    | .error .notSameChain => some (st, genCheck (genAncestorsDiff st.store h a) "err:notsamechain")
+    | .ok rows => some (st, genCheck (genAncestorsDiff st.store h a) ("ok:" ++ hashesStr rows))
   | "common" :: hs =>
     match commonAncestor st.store hs with
-    | .found r => some (st, "found:" ++ r.hash)
-    | .notFound => some (st, "err:notfound")
+    | .found r => some (st, genCheck (genCommonDiff st.store hs) ("found:" ++ r.hash))
+    | .notFound => some (st, genCheck (genCommonDiff st.store hs) "err:notfound")
     -- after the repairs 397583f / 15c8125 the service answers these two outcomes with structured 400 errors
     -- (ErrAncestorNotFound / ErrCommonAncestorEmptyList); the constructor names are kept from the original code
-    | .nilResult => some (st, "err:notfound")
-    | .panicEmpty => some (st, "err:empty")
+    | .nilResult => some (st, genCheck (genCommonDiff st.store hs) "err:notfound")
+    | .panicEmpty => some (st, genCheck (genCommonDiff st.store hs) "err:empty")
   | "ilv" :: "init" :: hexes =>
     match hexes.mapM parseHeader with
     | none => some (st, "bad-header")
